@@ -13,7 +13,7 @@
   flows_out(...)          a "not found" outcome travels up every level of the call chain into a propagated error
 """
 from .lib import iters
-from .lib.discard import result_fates, verdict
+from .lib.discard import result_fates, verdict, local_fates, Fate
 from .lib.guards import conditions, always_through
 from .lib.mir import op_place
 from .lib.value import walk, canon, subst, OK_PRESERVING, is_transparent
@@ -101,6 +101,9 @@ def reduce(sl, v, keep=(), depth=0):
 def apply1(sl, clv, arg, keep=()):
     """beta-normal result of calling closure value clv with one argument; None when clv is not a known closure"""
     clv = peel(clv)
+    if clv[0] == 'lambda':
+        # the predicate / payload of a search loop (NormalSlicer): the loop body's value with the loop element bound
+        return reduce(sl, replace_exact(clv[2], clv[1], arg), keep)
     if clv[0] not in ('closure', 'fnitem'):
         return None
     r = sl.apply_closure(clv, (arg,))
@@ -454,35 +457,52 @@ def carried_out(prog, calls):
     propagated (`?`, returned, matched with the failure read) and never discarded — inside a closure or helper `?` only
     hands the failure to the enclosing call, whose result has to be carried on in turn: (ok, first bad level)"""
     for c in calls:
-        fates = result_fates(prog, c.fn, c)
+        if isinstance(c, Search):
+            # the Option a search loop leaves in its result local
+            fates = [Fate('returned')] if c.local == 0 else local_fates(prog, c.fn, c.local, {}, set(), 0)
+            name, where = 'search loop', '%s:%s' % (c.fn.file, c.loop.next_call.where().split(':')[-1])
+        else:
+            fates = result_fates(prog, c.fn, c)
+            name, where = c.name, c.where()
         vd = verdict(fates)
         if vd != 'ok':
-            return False, '%s at %s: %s' % (c.name, c.where(), [repr(x) for x in fates])
+            return False, '%s at %s: %s' % (name, where, [repr(x) for x in fates])
         if not any(f.kind in ('returned', 'propagated') for f in fates):
             break
     return True, None
 
 
-def flows_out(prog, eff):
-    return carried_out(prog, [eff.call] + [l.call for l in reversed(eff.chain)])
+def flows_out(prog, eff, search=None):
+    """(search: the effect's call is the `next()` of that search loop — what is followed is the loop's result)"""
+    return carried_out(prog, [search if search is not None else eff.call] + [l.call for l in reversed(eff.chain)])
 
 
-def none_is_error(prog, sl, eff, variant):
-    """the Option produced at the effect's call is branched on (`match` / `let .. else` / `if let .. else`) and its None
-    arm can only leave the function through `Err(<variant>)`, which the enclosing levels carry on"""
-    c = eff.call
-    f = c.fn
-    here = (f.path, c.bb)
-    for d in f.whole_defs(0):
-        if not (d[0] == 'stmt' and d[3]['r'] == 'agg' and d[3].get('variant') == 'Err'):
-            continue
-        val = sl._def_value(f, d, set(), 0)
-        if not any(y[0] == 'agg' and y[2] == variant for y in walk(val)):
-            continue
-        for cd in conditions(f, d[1], sl):
-            if cd.kind == 'variant' and cd.subject is not None and cd.outcome == frozenset(['None']) and site_of(core(cd.subject)) == here:
-                if always_through(f, cd.target, d[1], f.return_blocks()):
-                    return carried_out(prog, [l.call for l in reversed(eff.chain)])
+def none_is_error(prog, sl, eff, variant, search=None):
+    """the Option produced at the effect's call (or handed up unchanged by the helpers around it: returned as their own
+    result) is branched on (`match` / `let .. else` / `if let .. else`) and its None arm can only leave the function
+    through `Err(<variant>)`, which the enclosing levels carry on"""
+    carriers = [search if search is not None else eff.call] + [l.call for l in reversed(eff.chain)]
+    for n, c in enumerate(carriers):
+        f = c.fn
+        here = c.site if isinstance(c, Search) else (f.path, c.bb)
+        for d in f.whole_defs(0):
+            if not (d[0] == 'stmt' and d[3]['r'] == 'agg' and d[3].get('variant') == 'Err'):
+                continue
+            val = sl._def_value(f, d, set(), 0)
+            if not any(y[0] == 'agg' and y[2] == variant for y in walk(val)):
+                continue
+            for cd in conditions(f, d[1], sl):
+                if cd.kind == 'variant' and cd.subject is not None and cd.outcome == frozenset(['None']) and site_of(core(cd.subject)) == here:
+                    if always_through(f, cd.target, d[1], f.return_blocks()):
+                        return carried_out(prog, carriers[n + 1:])
+        # not decided here: the Option has to be this function's own result for the next level to decide
+        if isinstance(c, Search):
+            handed_up = c.local == 0
+        else:
+            fates = result_fates(prog, f, c)
+            handed_up = bool(fates) and all(x.kind == 'returned' for x in fates) and (f.ret or '').startswith('std::option::Option<')
+        if not handed_up:
+            break
     return False, 'no None arm returning Err(%s)' % variant
 
 
@@ -566,6 +586,10 @@ def apply_stage(sl, clv, arg, keep):
     """result of calling the closure / fn item of an adapter stage with one element; opaque functions stay calls"""
     clv = peel(clv)
     if clv[0] == 'fnitem' and (clv[1] in keep or clv[1] not in sl.prog.fns):
+        return ('call', clv[1], (arg,), None)
+    if clv[0] == 'closure' and clv[1] in keep:
+        # a closure that is an anchor of the rule (the node constructor written as the body of a map stage) is one entity,
+        # like the named function it replaces
         return ('call', clv[1], (arg,), None)
     return apply1(sl, clv, arg, keep)
 
@@ -1295,7 +1319,7 @@ def total_iterations(E, e, tolerate=None):
     from . import C15_helpers as H15
     from .lib.value import vstr
     sl = E.slicer
-    sel = H15.selection(E, e)
+    sel = selection(E, e)
     its = sel.iterations
     if not its:
         return 'none', 'not inside an iteration', its
@@ -1312,7 +1336,8 @@ def total_iterations(E, e, tolerate=None):
             return 'unproven', 'an adapter whose selection cannot be stated: %s' % vstr(it.recv)[:100], its
     ls = H15.levels(e)
     guards = [(j, cd, vs) for j, cd, vs in sel.guards
-              if not (tolerate is not None and cd.subject is not None and tolerate(cd, E.subst(cd.subject, ls[j][1])))]
+              if not (tolerate is not None and cd.subject is not None and tolerate(cd, E.subst(cd.subject, ls[j][1])))
+              and not failing_guard(E, ls[j][0].fn, cd)]
     if guards:
         return 'violated', 'runs only under a per-element condition: %s' % '; '.join(vstr(vs[0][0])[:80] for _, _, vs in guards), its
     inside = False          # an iteration was opened at an earlier level
@@ -1323,7 +1348,7 @@ def total_iterations(E, e, tolerate=None):
         sites = {s.bb for s in E.sites(f)} or set(f.return_blocks())
         if inside:
             # below the outermost iteration: the callee is entered every time and cannot succeed without reaching the call
-            if not prev_adapter and not H15._direct(E, ls[j - 1][0], f):
+            if not prev_adapter and not H15._direct(E, ls[j - 1][0], f) and not runs_unless_failed(E.prog, ls[j - 1][0], f):
                 return 'unproven', 'reached through an indirect call', its
             if not always_through(f, 0, lps[0].header if lps else c.bb, sites):
                 return 'violated', '%s can succeed without reaching it' % f.path, its
@@ -1345,6 +1370,91 @@ def total_iterations(E, e, tolerate=None):
         prev_adapter = sum(1 for it in its if it.level == j) > len(lps)
         inside = inside or bool(lps) or prev_adapter
     return 'ok', '', its
+
+
+def selection(E, e):
+    """C15_helpers.selection on natural loops: the iterations around effect e are the loops whose body (the blocks from which
+    the loop's latch is reached without leaving it) holds the call — a loop that merely *precedes* the call inside an
+    enclosing loop (a search loop, a loop filling a buffer) is not an iteration the effect runs in — plus the closures
+    handed to iterator adapters / consumers; the per-element decisions are the branch decisions inside the outermost one"""
+    from . import C15_helpers as H15
+    from .lib.paths import strip
+    sl = E.slicer
+    ls = H15.levels(e)
+    its, guards = [], []
+    for j, (c, m) in enumerate(ls):
+        f = c.fn
+        inside = bool(its)
+        body = None
+        skip_sites = set()
+        for L in sorted((L for L in natural_loops(E, f) if c.bb in L.body and c.bb != L.header), key=lambda L: -len(L.body)):
+            if L.collection is None:
+                its.append(H15.Iteration(j, None, None, None, [], True))
+            else:
+                its.append(H15._iteration(E, j, E.subst(L.collection, m)))
+            body = L.body if body is None else body
+            skip_sites.add((f.path, L.header))
+        for cd in conditions(f, c.bb, sl):
+            if not (inside or (body is not None and cd.sw_bb in body)) or H15._is_continue(cd):
+                continue
+            s = strip(cd.subject) if cd.subject is not None else None
+            if s is not None and s[0] == 'call' and len(s) == 4 and s[3] in skip_sites:
+                continue        # the loop's own `next() is Some`
+            views = [(E.subst(v, m), oc) for v, oc in cd.views()] if cd.kind == 'bool' else [(E.subst(cd.value, m), cd.outcome)]
+            guards.append((j, cd, views))
+        if j + 1 < len(ls) and not c.indirect and (c.decl or '').startswith('std::iter::'):
+            g = ls[j + 1][0].fn
+            d = c.decl
+            recv = None
+            if d in iters.LAZY_WITH_CLOSURE and len(c.args) == 2:
+                recv = sl.operand(f, c.args[0])
+            elif d in iters.CONSUME_EACH or d in iters.CONSUME_ALL:
+                ridx = 1 if d == 'std::iter::Extend::extend' else 0
+                if ridx < len(c.args):
+                    recv = sl.operand(f, c.args[ridx])
+                    for name, clv, rv in iters.stages(recv):
+                        if clv[0] == 'closure' and clv[1] == g.path:
+                            recv = rv
+                            break
+            if recv is not None:
+                its.append(H15._iteration(E, j, E.subst(recv, m)))
+    return H15.Selection(its, guards)
+
+
+def failing_guard(E, f, cd):
+    """the decision is "go on, or fail": no other edge of its switch can reach a success exit of f, the next iteration of a
+    loop, or any further decision-free way back to normal execution — `let Some(x) = r else { return Err(..) }`,
+    `match r { Ok(v) => v, Err(e) => return Err(..) }`, `if bad { return Err(..) }` are what `?` is.  (That the failure of f
+    fails the entry function is — as for `?` — the business of the error-propagation obligations.)"""
+    sites = {s.bb for s in E.sites(f)} or set(f.return_blocks())
+    if not f.ret.startswith(('std::result::Result<', 'std::option::Option<', 'std::ops::ControlFlow<')):
+        return False        # nothing to fail with
+    heads = {c.bb for c in f.calls if not c.indirect and c.decl == IT + 'next'}
+    others = [t for t in f.succs(cd.sw_bb) if t != cd.target]
+    if not others:
+        return False
+    for t in others:
+        if f.blocks[t]['t']['t'] == 'unreachable':
+            continue
+        r = f.reachable(t)
+        if r & sites or r & heads or cd.target in r:
+            return False
+    return True
+
+
+RUNS_ON_OK = ('std::result::Result::<T, E>::map', 'std::result::Result::<T, E>::and_then', 'std::result::Result::<T, E>::inspect',
+              'std::option::Option::<T>::map', 'std::option::Option::<T>::and_then', 'std::option::Option::<T>::inspect')
+
+
+def runs_unless_failed(prog, call, g):
+    """closure g is handed to `r.map(..)` / `r.and_then(..)` on a Result / Option whose own result has to be Ok / Some for
+    the calling function to succeed (it is `?`-ed, returned, matched with failing other arms): the receiver was Ok / Some
+    then, so the closure ran — `r.map(|v| effect(v))?` is `let v = r?; effect(v)`"""
+    if call.indirect or not (set(call.names()) & set(RUNS_ON_OK)) or len(call.args) != 2:
+        return False
+    if g not in prog.fn_item_args(call):
+        return False
+    return ok_on_success(prog, call.fn, call)
 
 
 def node_element(elem, marker):
@@ -1409,3 +1519,311 @@ def subtype_slicer(sl):
                 return Slicer._rvalue(self, fn, rv, seen, d, at)
         _SUBTYPE_SLICERS[key] = (sl, _S(sl.prog, sl.max_depth))
     return _SUBTYPE_SLICERS[key][1]
+
+
+# ====================================================================================================================
+# Round 4 — normal forms that make whole families of spellings one thing
+#
+#   search loops      `let mut r = None; for x in C { if P(x) { r = Some(f(x)); break } }` (and the helper form
+#                     `for x in C { if P(x) { return Some(f(x)) } } None`) *is* `C.find(P).map(f)`: NormalSlicer gives the
+#                     result local that value — ('call', Iterator::find, (C, ('lambda', x, P(x))), site of the loop's next())
+#                     — so everything stated on find() (find_by_id, lookup_of, R4's ok_or / None arm) holds for both
+#   failing guards    a per-element decision whose other branch cannot reach a success exit or the next iteration
+#                     (`let Some(i) = r else { return Err(..) }`, `match r { Ok(v) => v, Err(e) => return Err(..) }`) is what
+#                     `?` is: not a selection of elements (total_iterations)
+#   combinator levels `r.map(|v| effect)` / `r.and_then(..)` on a Result / Option whose own result must be Ok / Some for the
+#                     function to succeed runs the closure on every run that does not fail: `let v = r?; effect`
+#   mapped emission   a returned `V.into_iter().map(f).collect()` over a local vector V that is only pushed to is V's pushes
+#                     with f applied (emitted(): get_dependencies split into an index-collecting helper and a final map)
+# ====================================================================================================================
+FIND = IT + 'find'
+OPT_MAP = 'std::option::Option::<T>::map'
+
+
+class NatLoop:
+    def __init__(self, fn, call, body, latches, exhaust, entries):
+        self.fn, self.next_call, self.header, self.body, self.latches, self.exhaust, self.entries = fn, call, call.bb, body, latches, exhaust, entries
+
+
+_NAT = {}
+
+
+def nat_loops(fn):
+    """natural loops around an Iterator::next call (CFG only, no values)"""
+    key = id(fn)
+    if key in _NAT and _NAT[key][0] is fn:
+        return _NAT[key][1]
+    preds = {}
+    for b in range(len(fn.blocks)):
+        for t in fn.succs(b):
+            preds.setdefault(t, []).append(b)
+    out = []
+    for c in fn.calls:
+        if c.indirect or c.decl != IT + 'next':
+            continue
+        h = c.bb
+        latches = [p for p in preds.get(h, ()) if fn.dominates(h, p)]
+        if not latches:
+            continue
+        body, work = {h}, list(latches)
+        while work:
+            b = work.pop()
+            if b not in body:
+                body.add(b)
+                work.extend(preds.get(b, ()))
+        ex, entries = None, []
+        tb = c.target
+        if tb is not None and fn.blocks[tb]['t']['t'] == 'switch':
+            t = fn.blocks[tb]['t']
+            some_t = [b for v, b in t['targets'] if v == 1]
+            outs = [b for v, b in t['targets'] if v != 1] + [t['else']]
+            outs = [b for b in outs if b not in body and fn.blocks[b]['t']['t'] != 'unreachable']
+            if some_t and some_t[0] in body and len(set(outs)) == 1:
+                ex = (tb, outs[0])
+                entries = [s for s in fn.succs(tb) if s in body]
+        out.append(NatLoop(fn, c, body, latches, ex, entries))
+    _NAT[key] = (fn, out)
+    return out
+
+
+class Search:
+    """one search loop: `local` is None unless the loop found an element, then Some(payload of the first one found)"""
+
+    def __init__(self, fn, local, loop, some_def, none_def, sw_bb, target, form):
+        self.fn, self.local, self.loop, self.some_def, self.none_def, self.sw_bb, self.target, self.form = fn, local, loop, some_def, none_def, sw_bb, target, form
+        self.site = (fn.path, loop.next_call.bb)
+
+
+def _option_def(fn, d, depth=0):
+    """variant name when whole definition d writes an Option literal (directly, or a temporary holding one): 'Some'|'None'"""
+    if d[0] != 'stmt' or depth > 3:
+        return None
+    rv = d[3]
+    if rv['r'] == 'agg' and rv.get('adt') == 'std::option::Option':
+        return rv.get('variant')
+    if rv['r'] == 'use':
+        pl = op_place(rv['o'])
+        if pl and not pl[1:] and not (1 <= pl[0] <= fn.argc):
+            ds = fn.whole_defs(pl[0])
+            if len(ds) == 1 and ds[0][1] == d[1] and not fn.partial_defs(pl[0]):
+                return _option_def(fn, ds[0], depth + 1)
+    return None
+
+
+def _straight_to(fn, start, goal):
+    """start reaches goal over blocks with a single (normal) successor: nothing is decided on the way"""
+    b = start
+    for _ in range(12):
+        if b == goal:
+            return True
+        ss = fn.succs(b)
+        if len(ss) != 1 or fn.blocks[b]['t']['t'] == 'switch':
+            return False
+        b = ss[0]
+    return False
+
+
+def find_searches(fn):
+    """{local: Search}: locals that hold the result of a search loop.  CFG conditions (values are checked by the slicer):
+         - the local has exactly two whole definitions, `None` and `Some(..)`, no partial one, and is never borrowed mutably
+         - the loop is left only by exhaustion and over one edge of one switch inside the body; that edge leads straight
+           to the `Some` assignment, which leaves the loop for good; every iteration passes that switch
+         - break form: `None` is assigned before the loop on every way into it (also on the way from one run of the loop
+           to the next), the local is read only after the loop;
+           return form: the local is the return value, `None` is what every way from the exhausted loop to the return assigns"""
+    out = {}
+    loops = nat_loops(fn)
+    if not loops:
+        return out
+    rets = set(fn.return_blocks())
+    for local in range(0, len(fn.locals)):
+        if 1 <= local <= fn.argc:
+            continue
+        defs = fn.whole_defs(local)
+        if len(defs) != 2 or fn.partial_defs(local):
+            continue
+        kinds = [_option_def(fn, d) for d in defs]
+        if sorted(k or '' for k in kinds) != ['None', 'Some']:
+            continue
+        sd, nd = (defs[0], defs[1]) if kinds[0] == 'Some' else (defs[1], defs[0])
+        bS, bN = sd[1], nd[1]
+        uses = fn.uses_of(local)
+        if any(u[1] == 'stmt' and u[3] in ('refmut', 'rawptr') for u in uses):
+            continue
+        for L in loops:
+            h = L.header
+            if L.exhaust is None or bS in L.body or not fn.dominates(h, bS) or bN in L.body:
+                continue
+            exits = {(u, v) for u in L.body for v in fn.succs(u) if v not in L.body and fn.blocks[v]['t']['t'] != 'unreachable'}
+            exits.discard(L.exhaust)
+            if len(exits) != 1:
+                continue
+            (sw, tgt), = exits
+            if fn.blocks[sw]['t']['t'] != 'switch' or sw == L.exhaust[0] or not _straight_to(fn, tgt, bS):
+                continue
+            if not all(always_through(fn, s, sw, set(L.latches) | {h}) for s in L.entries) or not L.entries:
+                continue
+            if h in fn.reachable(bS) and _reaches_end_avoiding(fn, bS, {bN} if local else set(), {h}, set()):
+                continue    # (the Some assignment does not leave the loop for good)
+            out_b = L.exhaust[1]
+            if local == 0:
+                if not always_through(fn, out_b, bN, rets) or bN in fn.reachable(bS) or bS in fn.reachable(bN) or fn.dominates(bN, h):
+                    continue
+                form = 'return'
+            else:
+                if not fn.dominates(bN, h):
+                    continue
+                # no stale value: from the loop's exits the loop is not entered again without passing the None assignment
+                if any(_reaches_end_avoiding(fn, v, {bN}, {h}, set()) for v in (out_b, bS)):
+                    continue
+                # read only after the loop has been left
+                if any(u[0] in L.body or not fn.dominates(h, u[0]) or (u[0] != bS and _reaches_end_avoiding(fn, u[0], {h}, {bS}, set())) for u in uses if u[1] != 'drop'):
+                    continue
+                form = 'break'
+            out[local] = Search(fn, local, L, sd, nd, sw, tgt, form)
+            break
+    return out
+
+
+def replace_exact(v, old, new):
+    """v with every occurrence of the very value `old` (call sites included) replaced"""
+    if v == old:
+        return new
+    if not isinstance(v, tuple) or not v or (isinstance(v[0], str) and v[0] in ATOMS):
+        return v
+    out = tuple(replace_exact(x, old, new) if isinstance(x, tuple) else x for x in v)
+    return out if out != v else v
+
+
+_NORMAL = {}
+
+
+def normal_slicer(sl):
+    """the Slicer the rule's normal forms are stated on: `x as T (Subtype)` casts transparent (see subtype_slicer), and the
+    result of a search loop is the find() it spells out"""
+    from .lib.value import Slicer
+    if getattr(sl, 'searches', None) is not None:
+        return sl
+    key = id(sl)
+    if key in _NORMAL and _NORMAL[key][0] is sl:
+        return _NORMAL[key][1]
+
+    class _N(Slicer):
+        def __init__(self, prog, max_depth, inner=False):
+            Slicer.__init__(self, prog, max_depth)
+            self._searches, self._busy = {}, set()
+            if not inner:
+                self._sym = _N(prog, max_depth, True)       # closure bodies (apply_closure) get the same normal forms
+                self._sym.symbolic_upvars = True
+
+        def searches(self, fn):
+            if fn.path not in self._searches:
+                try:
+                    self._searches[fn.path] = find_searches(fn)
+                except Exception:
+                    self._searches[fn.path] = {}
+            return self._searches[fn.path]
+
+        def _rvalue(self, fn, rv, seen, d, at):
+            if rv['r'] == 'cast' and 'Subtype' in str(rv.get('kind')):
+                return self.operand(fn, rv['o'], seen, d)
+            return Slicer._rvalue(self, fn, rv, seen, d, at)
+
+        def _local(self, fn, local, seen, d):
+            s = self.searches(fn).get(local)
+            key = (fn.path, local)
+            if s is not None and key not in self._busy:
+                self._busy.add(key)
+                try:
+                    v = self._search_value(fn, s, seen, d)
+                finally:
+                    self._busy.discard(key)
+                if v is not None:
+                    return v
+            return Slicer._local(self, fn, local, seen, d)
+
+        def _search_value(self, fn, s, seen, d):
+            L = s.loop
+            c = L.next_call
+            rp = op_place(c.args[0]) if c.args else None
+            if not rp or not c.dest or len(c.dest) != 1:
+                return None
+            coll = self.place(fn, rp, seen, d)
+            elem = self.mk_unwrap(self.local(fn, c.dest[0], seen, d), 1)
+            some = self._def_value(fn, s.some_def, seen, d)
+            if not (some[0] == 'agg' and some[2] == 'Some' and len(some[3]) == 1) or elem[0] != 'unwrap':
+                return None
+            payload = some[3][0][1]
+            cds = [cd for cd in conditions(fn, s.some_def[1], self) if cd.sw_bb == s.sw_bb and cd.target == s.target]
+            if len(cds) != 1 or cds[0].kind != 'bool' or not isinstance(cds[0].outcome, bool):
+                return None
+            body = cds[0].value if cds[0].outcome else ('un', 'Not', cds[0].value)
+            if any(x[0] == 'unknown' for x in walk(body)):
+                return None
+            v = ('call', FIND, (coll, ('lambda', elem, body)), s.site)
+            if payload != elem:
+                v = ('call', OPT_MAP, (v, ('lambda', elem, payload)), None)
+            return v
+
+    n = _N(sl.prog, sl.max_depth)
+    _NORMAL[key] = (sl, n)
+    return n
+
+
+def search_at(sl, fn, site):
+    """the Search whose loop iterates at `site`, when sl states it as a find()"""
+    get = getattr(sl, 'searches', None)
+    if get is None:
+        return None
+    for s in get(fn).values():
+        if s.site == site:
+            v = sl.local(fn, s.local)
+            if any(x[0] == 'call' and x[1] == FIND and site_of(x) == site for x in walk(v)):
+                return s
+    return None
+
+
+def emitted(prog, sl, fn):
+    """the success payload of what fn returns is a local vector V seen through element-wise stages only — `V` itself,
+    `V.into_iter().map(f).collect()`, with the helper that built V inlined and `r.map(|v| ..)` / `?` / and_then applied:
+    (creation site of V, function mapping a value pushed to V to the element that is returned), else None"""
+    pay = sl.mk_unwrap(reduce(sl, sl.local(fn, 0)), 1)
+    alts = list(pay[1]) if pay[0] == 'phi' else [pay]
+    found = set()
+    maps = []
+    for a in alts:
+        c = core(a)
+        if c[0] == 'call' and c[1] in VEC_NEW and site_of(c) is not None:
+            found.add(site_of(c))
+            maps.append(None)
+            continue
+        al = iters.alts(sl, a)
+        if len(al) != 1 or al[0][2] or al[0][1] is None or not in_order(a):
+            return None
+        coll = core(al[0][1])
+        if not (coll[0] == 'call' and coll[1] in VEC_NEW and site_of(coll) is not None):
+            return None
+        found.add(site_of(coll))
+        maps.append((iters.elem_of(al[0][1]), al[0][0]))
+    if len(found) != 1 or len({canon(m) if m is not None else None for m in maps}) != 1:
+        return None
+    m = maps[0]
+
+    def through(pushed):
+        return pushed if m is None else reduce(sl, subst(m[1], {'__repl__': [(canon(m[0]), pushed)]}, sl))
+    return next(iter(found)), through
+
+
+def vec_mutations(prog, fns, allowed_sites):
+    """calls in fns that receive some vector / slice mutably and are not the recognised appends"""
+    out = []
+    for g in fns:
+        for c in g.calls:
+            if c.indirect or (g.path, c.bb) in allowed_sites or is_transparent(c) or (c.name or '').endswith(HARMLESS_MUT):
+                continue
+            for a in c.args:
+                pl = op_place(a)
+                if pl and g.local_ty(pl[0]).startswith(('&mut std::vec::Vec<', '&mut [', '&mut std::collections::VecDeque<')):
+                    out.append(c)
+                    break
+    return out
